@@ -130,6 +130,29 @@ class TraceRun:
                 vals.append(x)
         self.pack_out[n] = vals
 
+    def cb_prove(self):
+        """An explicit backend.prove() in the middle of the script (checkpoint), into a throw-away directory."""
+        import contextlib, io, os, shutil, tempfile
+        d = tempfile.mkdtemp(prefix="ckpt-")
+        old = os.getcwd()
+        os.chdir(d)
+        try:
+            buf = io.StringIO()
+            with contextlib.redirect_stdout(buf), contextlib.redirect_stderr(buf):
+                self.w.backend.prove()
+        finally:
+            os.chdir(old)
+            shutil.rmtree(d, ignore_errors=True)
+        self.probe("checkpoint_prove")
+
+    def cb_set_res(self, r):
+        self.w.fixedpoint.resolution = r
+        self.probe("resolution_changed_mid_run")
+
+    def cb_set_bl(self, b):
+        self.w.runtime.bitlength = b
+        self.probe("bitlength_changed_mid_run")
+
     def cb_poseidon(self, xs):
         """Traced Poseidon sponge of the given secrets (zkinterface fields only; elsewhere the module refuses
         to load, which the plan sees as a NotImplementedError of that statement)."""
@@ -324,6 +347,7 @@ class TraceRun:
             "LinCombFxp": w.fixedpoint.LinCombFxp,
             "if_then_else": w.branching.if_then_else, "Array": w.array.Array,
             "__zero__": rt.ConstVal(0), "__poseidon__": self.cb_poseidon, "__inputs__": self.inputs,
+            "__set_res__": self.cb_set_res, "__set_bl__": self.cb_set_bl, "__prove__": self.cb_prove,
             "__step__": self.cb_step, "__enter__": self.cb_enter,
             "__leave__": self.cb_leave, "__caught__": self.cb_caught, "__set_ie__": self.cb_set_ie,
             "__cv__": self.cb_cv, "__CAUGHT__": (Exception, W.InjectedInterrupt),
@@ -541,6 +565,7 @@ def run_native(plan, inputs=None, snapshots=None):
          "PubValFxp": float, "__inputs__": inputs if inputs is not None else [i["v"] for i in plan["inputs"]],
          "__step__": step, "__caught__": lambda k, e, m=(): caught.append((k, type(e).__name__)),
          "__CAUGHT__": Exception, "Array": NArray, "__flat__": flat_leaves, "__zero__": 0,
+         "__set_res__": lambda r: None, "__set_bl__": lambda b: None,
          "__callend__": lambda n, ret: calls.__setitem__(n, _plain(ret)),
          "__enter__": lambda *a: None, "__leave__": lambda *a: None}
     try:
